@@ -6,6 +6,7 @@ import (
 	"go/constant"
 	"go/token"
 	"go/types"
+	"golang.org/x/tools/go/packages"
 	"sort"
 	"strings"
 
@@ -805,7 +806,12 @@ func checkLogSinks(p *core.Program, r *core.Report, ix *funcIndex, mainUnit flow
 			continue
 		}
 		var hit []string
-		for _, u := range ix.closure([]flow.FuncUnit{c.Action}) {
+		// what runs when the command is invoked: its action, its own Before/After hooks, and the application-level hooks
+		// (a global option handled in cli.App.Before runs for every command)
+		roots := []flow.FuncUnit{c.Action}
+		roots = append(roots, hookUnits(c.Pkg, c.Lit)...)
+		roots = append(roots, appHookUnits(p)...)
+		for _, u := range ix.closure(roots) {
 			if n, ok := isWriter[u.Node]; ok {
 				hit = append(hit, n)
 			}
@@ -862,4 +868,61 @@ func checkLogSinks(p *core.Program, r *core.Report, ix *funcIndex, mainUnit flow
 			}
 		}
 	}
+}
+
+// hookUnits returns the Before / After (and similar) hook functions of a cli.App or cli.Command literal.
+func hookUnits(pk *packages.Package, lit *ast.CompositeLit) []flow.FuncUnit {
+	var out []flow.FuncUnit
+	if lit == nil {
+		return nil
+	}
+	for _, el := range lit.Elts {
+		kv, ok := el.(*ast.KeyValueExpr)
+		if !ok {
+			continue
+		}
+		k, _ := kv.Key.(*ast.Ident)
+		if k == nil {
+			continue
+		}
+		switch k.Name {
+		case "Before", "After", "OnUsageError", "CommandNotFound", "ExitErrHandler":
+		default:
+			continue
+		}
+		if fl, ok := ast.Unparen(kv.Value).(*ast.FuncLit); ok {
+			out = append(out, flow.FuncUnit{Pkg: pk, Node: fl, Name: "main.hook:" + k.Name})
+		} else if id, ok := ast.Unparen(kv.Value).(*ast.Ident); ok {
+			if fn, ok := pk.TypesInfo.Uses[id].(*types.Func); ok {
+				for _, ff := range pk.Syntax {
+					for _, d := range ff.Decls {
+						if fd, ok := d.(*ast.FuncDecl); ok && pk.TypesInfo.Defs[fd.Name] == types.Object(fn) {
+							out = append(out, flow.FuncUnit{Pkg: pk, Node: fd, Name: "main.hook:" + k.Name})
+						}
+					}
+				}
+			}
+		}
+	}
+	return out
+}
+
+// appHookUnits: the hooks of every cli.App literal of package main.
+func appHookUnits(p *core.Program) []flow.FuncUnit {
+	pk := p.Pkg("")
+	if pk == nil {
+		return nil
+	}
+	var out []flow.FuncUnit
+	for _, f := range pk.Syntax {
+		ast.Inspect(f, func(n ast.Node) bool {
+			if cl, ok := n.(*ast.CompositeLit); ok {
+				if tv, ok := pk.TypesInfo.Types[cl]; ok && isNamed(tv.Type, "github.com/urfave/cli/v2", "App") {
+					out = append(out, hookUnits(pk, cl)...)
+				}
+			}
+			return true
+		})
+	}
+	return out
 }
